@@ -53,6 +53,19 @@ CLAIMED = {
              "needed for the TLS 1.0 S1/S2 split); RSA/pre-master branches modelled but not claimed; extraction, OCaml driver and the crypto pipe oracle for the correspondence.",
         technique="Coq proof (loop invariants over the RFC's P_hash stream, slice algebra, case analysis over cipher classes) + oracle-backed correspondence on installed keys",
         design="3 C15"),
+    "C01": dict(
+        text="Proof (partial): Coq theorems for EVERY instance of the primitives satisfying CryptoLaws (decryption inverts encryption; sizes), one per protection class -- "
+             "C01_tls13, C01_tls12_aead, C01_tls12_chacha, C01_rc4, C01_cbc_chained, C01_cbc_explicit: ANY history of application records protected by the sender of "
+             "Spec/TlsRecords.v from a state synchronised with the decryptor (key, IV; sequence number / CBC residue / RC4 key-stream position) is decrypted to exactly the "
+             "contents, in order, any lengths 0..65535, any explicit nonces/IVs, MAC values and padding lengths, MAC-then-encrypt and encrypt-then-MAC; the states stay "
+             "synchronised (cipher state as a function of the whole history); C01_dispatch (decrypt takes the path of the negotiated class), C01_directions_independent. "
+             "Keys are C15's theorems, record delivery C05's, output concatenation C06's. NOT proved: that the handshake of every shape leaves session and sender synchronised "
+             "(hello parsing, CCS/Finished bookkeeping, TLS 1.3 key switch at Finished, inner-type and padding handling): decided by the independent reference sender "
+             "(all versions x all ~200 table suites x handshake shapes x histories x segmentations) on the implementation and by byte-exact correspondence of the session model.",
+        note="Trusted: Coq kernel; CryptoLaws as a hypothesis on the Crypto record (named in the statements); Spec/TlsRecords.v as a transcription of the record layer RFCs; "
+             "tools/ref/tls_ref.py as the oracle of the search; no compression, renegotiation, KeyUpdate, 0-RTT, HRR (as in the property).",
+        technique="Coq proof (per-class record lemma + generic history induction over a synchronisation invariant) + reference-sender search + byte-exact correspondence",
+        design="3 C01"),
     "C02": dict(
         text="Proof (partial): Coq theorems on the output side of the QUIC path -- C02_nothing_lost_or_added (the payloads written are, concatenated, exactly the data "
              "of the collected frames in order), C02_per_direction (each direction receives exactly its own frames' data), C02_one_output_per_input_datagram (capture times "
